@@ -352,7 +352,10 @@ static void run_le(std::istringstream& is)
     {
         Eigen::GeneralizedSelfAdjointEigenSolver<DenseMatrix> ref(Lref, Dref);
         if (ref.info() == Eigen::Success)
+        {
             print_mat("LAMREF", DenseMatrix(ref.eigenvalues().transpose()));
+            print_mat("VREF", DenseMatrix(ref.eigenvectors()));
+        }
         else
             printf("@REFFAIL\n");
     }
